@@ -200,8 +200,8 @@ def run(repo, tier):
     res.floor('T-AXIS', 25)
     res.floor('loops-examined', 30)
     from .common import run_label_eq
-    if run_label_eq(repo, res, {'photutils.segmentation.core', 'photutils.segmentation.catalog'}) < 3:
-        raise AnalysisError('vanished anchor: per-label loops over (label, slices)')
+    run_label_eq(repo, res, {'photutils.segmentation.core', 'photutils.segmentation.catalog'})
+    res.floor('LABEL-EQ', 3)
     from .common import run_clones, run_loop_twin
     if run_clones(repo, res) < 25:
         raise AnalysisError('vanished anchor: cloned shape/moment methods of SourceCatalog and ApertureStats')
